@@ -1,4 +1,5 @@
 import SpecVerif.Proofs.C10
+import SpecVerif.Proofs.C10H
 /-!
 # C10 — equality, copying and repr are coherent and total
 
@@ -231,6 +232,158 @@ theorem repr_lists_exactly (c : Nat) (fs : Vals) :
   ⟨_, rfl, reprEntries_names T _ _⟩
 
 /-! ## Non-vacuity -/
+/-! ## The order of the attributes in the metadata (every decorator option), `Model/C10H.lean`
+
+`repr_lists_exactly` says that `repr` lists the repr-enabled attributes in METADATA order; the theorems below say that the
+metadata order assembled by `spec_class.bootstrap` (`metaOrder`: ordered-dict updates) IS the declaration order, for ANY
+inherited attribute list, class body and decorator options (`attrs`, `attrs_typed`, `attrs_skip`, `init_overflow_attr`, `key`). -/
+
+/-- **metaorder_is_declaration_order.** The key order of `metadata.attrs` is: the inherited attributes in the parent's
+order, then the managed attributes annotated in the class body in BODY order (also those a decorator option names as
+well), then the attributes named by the decorator only (`attrs`, `attrs_typed`, `init_overflow_attr`, in that order, first
+occurrence), then the key when nothing else declares it. -/
+theorem metaorder_is_declaration_order (inh : List String) (o : DecoOpts) (hann : o.annotations.Nodup) :
+    metaOrder inh o = declOrder inh o := by
+  unfold metaOrder declOrder
+  simp only [dictKeys_managed inh o hann]
+  cases o.key with
+  | none => rfl
+  | some k => simp only [addKey]
+
+/-- **metaorder_keeps_inherited.** A subclass never moves an inherited attribute: the parent's order is a prefix,
+whatever the subclass annotates or names. -/
+theorem metaorder_keeps_inherited (inh : List String) (o : DecoOpts) : inh <+: metaOrder inh o := by
+  unfold metaOrder
+  simp only [dictKeys_eq _ inh]
+  cases o.key with
+  | none => exact List.prefix_append _ _
+  | some k =>
+    simp only [addKey]
+    split
+    · exact List.prefix_append _ _
+    · rw [List.append_assoc]; exact List.prefix_append _ _
+
+/-- **metaorder_body_order.** The attributes annotated in the class body (managed, not inherited) stand in the metadata
+in the order of the body — naming one of them in `attrs` / `attrs_typed` / `init_overflow_attr` does not move it. -/
+theorem metaorder_body_order (inh : List String) (o : DecoOpts) (hann : o.annotations.Nodup) :
+    (metaOrder inh o).filter (fun a => o.managedAnn.contains a && !inh.contains a)
+      = o.managedAnn.filter (fun a => !inh.contains a) := by
+  rw [metaorder_is_declaration_order inh o hann]
+  unfold declOrder
+  have h1 : inh.filter (fun a => o.managedAnn.contains a && !inh.contains a) = [] := by
+    rw [List.filter_eq_nil_iff]; intro a ha; simp [ha]
+  have h2 : (o.managedAnn.filter (fun a => !inh.contains a)).filter (fun a => o.managedAnn.contains a && !inh.contains a)
+      = o.managedAnn.filter (fun a => !inh.contains a) := by
+    rw [List.filter_eq_self]; intro a ha
+    simp only [List.mem_filter, Bool.not_eq_true'] at ha
+    simp [ha.1, not_mem_of_contains_false ha.2]
+  have h3 : (firsts (o.namedRaw.filter (fun a => !inh.contains a && !o.managedAnn.contains a))).filter
+      (fun a => o.managedAnn.contains a && !inh.contains a) = [] := by
+    rw [List.filter_eq_nil_iff]; intro a ha
+    rw [mem_firsts, List.mem_filter] at ha
+    have := ha.2
+    simp only [Bool.and_eq_true, Bool.not_eq_true'] at this
+    simp [not_mem_of_contains_false this.2]
+  cases o.key with
+  | none => simp only [List.filter_append, h1, h2, h3, List.nil_append, List.append_nil]
+  | some k =>
+    simp only []
+    split
+    · simp only [List.filter_append, h1, h2, h3, List.nil_append, List.append_nil]
+    · rename_i hk
+      simp only [List.filter_append, h1, h2, h3, List.nil_append, List.append_nil]
+      have : [k].filter (fun a => o.managedAnn.contains a && !inh.contains a) = [] := by
+        rw [List.filter_eq_nil_iff]; intro a ha
+        simp only [List.mem_singleton] at ha; subst ha
+        intro hp
+        apply hk
+        simp only [Bool.and_eq_true, Bool.not_eq_true', List.contains_iff_mem] at hp
+        simp only [List.contains_iff_mem, List.mem_append, List.mem_filter]
+        exact Or.inl (Or.inr ⟨hp.1, by simp [not_mem_of_contains_false hp.2]⟩)
+      rw [this, List.append_nil]
+
+/-! ## Comparisons, repr and copies that may be aborted; histories (`Model/C10H.lean`) -/
+
+/-- **eq_outcome_values.** On the values of the tree model the outcome of `x == y` is its result under `pyEq`: nothing raises. -/
+theorem eq_outcome_values (hT : wfTable T = true) (c1 c2 : Nat) (f1 f2 : Vals) :
+    eqO T c1 (liftVals f1) c2 (liftVals f2) = .ok (pyEq T (.inst c1 f1) (.inst c2 f2)) := by
+  unfold pyEq
+  rw [eqO_inst hT, vEq_inst hT]
+  by_cases h : c1 = c2
+  · subst h; simp [fieldsO_lift]
+  · simp [h]
+
+/-- **eq_outcome_true_iff.** Also in the presence of values whose comparison raises and of reads that raise: `x == y`
+answers `True` exactly when the classes are the same and EVERY compare-enabled attribute is equal without raising —
+never because of anything else (such as a comparison of the same objects that is "already underway"). -/
+theorem eq_outcome_true_iff (hT : wfTable T = true) {c1 c2 : Nat} {ls rs : List Slot}
+    (hl : ls.length = (T.attrs c1).length) (hr : rs.length = (T.attrs c2).length) :
+    eqO T c1 ls c2 rs = .ok true ↔
+      c1 = c2 ∧ ∀ i (h : i < (T.attrs c1).length), ((T.attrs c1)[i]).compare = true →
+        slotCmp T (ls.getD i .getterRaises) (rs.getD i .getterRaises) = .ok true := by
+  rw [eqO_inst hT]
+  by_cases h : c1 = c2
+  · subst h
+    simp only [if_true, true_and]
+    exact fieldsO_true_iff T _ _ _ hl hr
+  · simp [h]
+
+/-- **eq_outcome_first_decides.** The FIRST compare-enabled attribute whose two values are not equal-without-raising
+decides: `False` when they differ, an exception when reading or comparing them raises — whatever stands later. -/
+theorem eq_outcome_first_decides (hT : wfTable T = true) {c : Nat} {ls rs : List Slot}
+    (hl : ls.length = (T.attrs c).length) (hr : rs.length = (T.attrs c).length)
+    (i : Nat) (h : i < (T.attrs c).length) (o : Outcome) (hc : ((T.attrs c)[i]).compare = true)
+    (ho : slotCmp T (ls.getD i .getterRaises) (rs.getD i .getterRaises) = o) (hne : o ≠ .ok true)
+    (hbefore : ∀ j (hj : j < (T.attrs c).length), j < i → ((T.attrs c)[j]).compare = true →
+      slotCmp T (ls.getD j .getterRaises) (rs.getD j .getterRaises) = .ok true) :
+    eqO T c ls c rs = o := by
+  rw [eqO_inst hT]
+  simp only [if_true]
+  exact fieldsO_first T _ _ _ hl hr i h o hc ho hne hbefore
+
+/-- **history_free.** What an operation answers after ANY history — assignments, comparisons, reprs, copies, completed
+or aborted by an exception — is what it answers on the heap shaped by the assignments alone: an operation leaves
+nothing behind that a later one could see. -/
+theorem history_free (h : Heap) (pre : List HOp) (op : HOp) :
+    runH T h (pre ++ [op]) = runH T h pre ++ [outStep T (heapAfter h (pre.filter HOp.isPut)) op] := by
+  rw [runH_append, ← heapAfter_puts]; rfl
+
+/-- **eq_after_any_history.** Once two objects hold values of the tree model (again), `x == y` is `pyEq` of these
+values — the relation the equality theorems are about — whatever happened to the two objects before (e.g. a
+comparison of this very pair that raised because one attribute held a signalling NaN). -/
+theorem eq_after_any_history (hT : wfTable T = true) (h : Heap) (pre : List HOp) {i j : Nat} (hij : i ≠ j)
+    (c1 c2 : Nat) (f1 f2 : Vals) :
+    (runH T h (pre ++ [.put i c1 (liftVals f1), .put j c2 (liftVals f2), .cmp i j])).getLast?
+      = some (.cmp (.ok (pyEq T (.inst c1 f1) (.inst c2 f2)))) := by
+  have hji : (j == i) = false := by simpa using fun e => hij e.symm
+  rw [runH_append]
+  simp [runH, heapStep, outStep, Heap.find, List.find?, hji, eq_outcome_values hT]
+
+/-- **repr_outcome_lists_exactly.** When `repr` answers, it lists exactly the repr-enabled attributes in metadata order
+(objects outside the value grammar included). -/
+theorem repr_outcome_lists_exactly (c : Nat) (ss : List Slot) (r : String × List (String × Kind))
+    (h : reprO T c ss = some r) :
+    r.1 = T.cname c ∧ r.2.map (·.1) = ((T.attrs c).filter (·.repr)).map (·.name) := by
+  unfold reprO at h
+  simp only [] at h
+  split at h
+  · cases h
+  · cases h
+    refine ⟨rfl, ?_⟩
+    simp only [List.map_map]
+    exact reprSlots_names (T.attrs c) ss
+
+/-- **repr_outcome_total.** `repr` raises only when a read or the `__repr__` of a value raises. -/
+theorem repr_outcome_total (c : Nat) (ss : List Slot) (h : ∀ s ∈ ss, s.reprRaises = false) :
+    (reprO T c ss).isSome = true := by
+  unfold reprO
+  simp only []
+  have : (reprSlots (T.attrs c) ss).any (fun e => e.2.reprRaises) = false := by
+    rw [List.any_eq_false]
+    intro e he
+    simp [reprSlots_noraise (T.attrs c) ss h e he]
+  simp [this]
+
 namespace Examples
 
 def aI (n : String) (cmp rp : Bool) : AttrInfo :=
@@ -338,5 +491,47 @@ example : pyEqC T3 xList (.inst 1 (.cons (.int 1) (.cons (.int 1) (.cons (.list 
 example : pyEqC [ { name := "N", parent := none, key := none, attrs := [aI "a" true true, aI "r" false true] } ]
     (.inst 0 (.cons (.int 1) (.cons .selfRef .nil))) (.inst 0 (.cons (.int 1) (.cons .none .nil))) = true := by decide
 
+
+/-! metadata order: the overflow attribute annotated in the body between two others (`@spec_class(init_overflow_attr=
+"options")`, body `name, options, retries`); `attrs_typed={"h": …}, attrs_skip=[]` with body `a, h, b`; a subclass naming an
+inherited attribute and a new one; decorator-only names after the body; skipped and private annotations; unmanaged key -/
+def oJob : DecoOpts := { annotations := ["name", "options", "retries"], attrs := [], typed := [], skipGiven := false
+                         skipNames := [], overflow := some "options", key := none }
+def oSample : DecoOpts := { annotations := ["a", "h", "b"], attrs := [], typed := ["h"], skipGiven := true
+                            skipNames := [], overflow := none, key := none }
+def oSub : DecoOpts := { annotations := ["m", "_p", "q"], attrs := ["x", "j"], typed := ["i", "y"], skipGiven := true
+                         skipNames := ["q"], overflow := none, key := some "k" }
+example : metaOrder [] oJob = ["name", "options", "retries"] ∧ metaOrder [] oSample = ["a", "h", "b"] := by decide
+example : metaOrder ["i", "j", "k"] oSub = ["i", "j", "k", "m", "x", "y"] ∧ oSub.annotations.Nodup := by decide
+example : metaOrder [] { oSample with skipGiven := false } = ["h"] ∧
+    metaOrder [] { oJob with key := some "id" } = ["name", "options", "retries", "id"] := by decide
+
+/-! outcomes: an object whose comparison raises at the second attribute — the outcome is `raised` when the first attribute
+agrees, `False` when it differs (either operand order); the same object on both sides is identical; after the value is
+replaced the comparison is `pyEq` again; repr / copy raise exactly for the flags of the object -/
+def TB : Table :=
+  [{ name := "S", parent := none, key := none, attrs := [aI "a" true true, aI "b" true true, aI "r" false false] }]
+def bm : Boom := { id := 0, eqRaises := true, reprRaises := false, copyRaises := true }
+example : wfTable TB = true ∧
+    eqO TB 0 [.val (.int 1), .boom bm, .val .none] 0 [.val (.int 1), .val (.int 5), .val .none] = .raised ∧
+    eqO TB 0 [.val (.int 1), .val (.int 5), .val .none] 0 [.val (.int 1), .boom bm, .val .none] = .raised ∧
+    eqO TB 0 [.val (.int 2), .boom bm, .val .none] 0 [.val (.int 1), .val (.int 5), .val .none] = .ok false ∧
+    eqO TB 0 [.val (.int 1), .boom bm, .val .none] 0 [.val (.int 1), .boom bm, .val .none] = .ok true ∧
+    eqO TB 0 [.val (.int 1), .val .missing, .val .none] 0 [.val (.int 1), .boom bm, .val .none] = .ok false ∧
+    eqO TB 0 [.val (.int 1), .val (.int 5), .getterRaises] 0 [.val (.int 1), .val (.int 5), .val .none] = .ok true := by
+  decide
+example : (reprO TB 0 [.val (.int 1), .boom bm, .val .none]).isSome = true ∧
+    reprO TB 0 [.val (.int 1), .boom { bm with reprRaises := true }, .val .none] = none ∧
+    reprO TB 0 [.val (.int 1), .getterRaises, .val .none] = none ∧
+    (reprO TB 0 [.val (.int 1), .val .none, .getterRaises]).isSome = true ∧
+    copyRaises (TB.attrs 0) [.val (.int 1), .boom bm, .val .none] = true ∧
+    copyRaises (TB.attrs 0) [.val (.int 1), .boom { bm with copyRaises := false }, .val .none] = false := by decide
+/-- A comparison that raised, then the same pair again after the value was replaced: `False` (the first attribute differs
+by then), in both orders — and `True` once the attributes agree. -/
+example : (runH TB [] [.put 0 0 [.val (.int 1), .boom bm, .val .none], .put 1 0 [.val (.int 1), .val (.int 5), .val .none],
+      .cmp 0 1, .cmp 1 0, .put 0 0 [.val (.int 2), .val (.int 5), .val .none], .cmp 0 1, .cmp 1 0,
+      .put 0 0 [.val (.int 1), .val (.int 5), .val (.int 9)], .cmp 0 1]).filterMap (fun o => match o with
+        | .cmp r => some r | _ => none)
+    = [.raised, .raised, .ok false, .ok false, .ok true] := by decide
 end Examples
 end SpecVerif.Props.C10
